@@ -76,6 +76,33 @@ VP_C_END
 /* frame of everything the environment may write */
 #define VP_ENV_FRAME __CPROVER_object_whole(vp_g_cnt), __CPROVER_object_whole(vp_g_log)
 
+
+/* attribute type -> cell index (shared by the C++ environment and by spec functions in contract files) */
+static inline int vp_bidx(CK_ATTRIBUTE_TYPE t)
+{
+	switch (t)
+	{
+		case CKA_TOKEN: return B_TOKEN; case CKA_PRIVATE: return B_PRIVATE; case CKA_MODIFIABLE: return B_MODIFIABLE;
+		case CKA_COPYABLE: return B_COPYABLE; case CKA_DESTROYABLE: return B_DESTROYABLE; case CKA_SENSITIVE: return B_SENSITIVE;
+		case CKA_EXTRACTABLE: return B_EXTRACTABLE; case CKA_WRAP_WITH_TRUSTED: return B_WRAP_WITH_TRUSTED; case CKA_TRUSTED: return B_TRUSTED;
+		case CKA_ENCRYPT: return B_ENCRYPT; case CKA_DECRYPT: return B_DECRYPT; case CKA_SIGN: return B_SIGN; case CKA_VERIFY: return B_VERIFY;
+		case CKA_WRAP: return B_WRAP; case CKA_UNWRAP: return B_UNWRAP; case CKA_DERIVE: return B_DERIVE;
+		case CKA_ALWAYS_AUTHENTICATE: return B_ALWAYS_AUTHENTICATE; case CKA_ALWAYS_SENSITIVE: return B_ALWAYS_SENSITIVE;
+		case CKA_NEVER_EXTRACTABLE: return B_NEVER_EXTRACTABLE; case CKA_LOCAL: return B_LOCAL;
+		case CKA_SIGN_RECOVER: return B_SIGN_RECOVER; case CKA_VERIFY_RECOVER: return B_VERIFY_RECOVER;
+	}
+	return -1;
+}
+static inline int vp_uidx(CK_ATTRIBUTE_TYPE t)
+{
+	switch (t)
+	{
+		case CKA_CLASS: return U_CLASS; case CKA_KEY_TYPE: return U_KEY_TYPE; case CKA_CERTIFICATE_TYPE: return U_CERTIFICATE_TYPE;
+		case CKA_KEY_GEN_MECHANISM: return U_KEY_GEN_MECHANISM; case CKA_VALUE_LEN: return U_VALUE_LEN;
+	}
+	return -1;
+}
+
 #ifdef __cplusplus
 class OSObject;
 OSObject* vp_obj(int k);       /* the k-th environment object */
